@@ -17,10 +17,12 @@ pub fn dump() -> String {
     for (n, c) in gen_errs::errs() {
         o.push_str(&z(&format!("E_{}", n), c as i128));
     }
+    // error codes of other crates that surface through marginfi (drift deposit-limit scaling, oracle adapter)
     o.push_str(&z(
-        "E_DriftMocks_MathError",
-        u32::from(drift_mocks::DriftMocksError::MathError) as i128,
+        "E_DriftMocks_ScalingOverflow",
+        u32::from(drift_mocks::DriftMocksError::ScalingOverflow) as i128,
     ));
+    o.push_str(&z("E_DriftMocks_MathError", u32::from(drift_mocks::DriftMocksError::MathError) as i128));
     o.push('\n');
     // I80F48 constants as raw bits
     o.push_str(&z("LIQUIDATION_LIQUIDATOR_FEE", tc::LIQUIDATION_LIQUIDATOR_FEE.to_bits()));
